@@ -202,7 +202,7 @@ def observe (c : Case) (v : V) (l fl : Option (List Char)) (ds : List V) (free :
   match put with
   | .error e => failLine e
   | .ok (stored, dflt) =>
-    let freeExpected := isD && stringy ty &&
+    let freeExpected := D.defaultSpliced && isD && stringy ty &&
       (match dflt with
        | some (.str s) | some (.json s) => s.any fun ch => ch = '\'' || ch.toNat = 0
        | _ => false)
@@ -287,6 +287,7 @@ structure FieldS where
   nullable : Bool
   dflt : Option Val
   late : Bool
+  thenDflt : Option Val := none     -- a nullable field that becomes `default v` in the upgraded model
 
 inductive SelN
   | scalar (key : String) (fld : Nat)
@@ -322,8 +323,15 @@ def toVal : QDriver.V → Option Val
 
 def parseVal (t : String) : Option Val := (QDriver.parseV t).bind toVal
 
+/-- the field as the current model version declares it -/
+def currentField (c : Case5) (f : FieldS) : FieldDef :=
+  match f.thenDflt with
+  | some v => if c.upgraded then { kind := f.kind, nullable := false, dflt := some v }
+              else { kind := f.kind, nullable := f.nullable, dflt := f.dflt }
+  | none => { kind := f.kind, nullable := f.nullable, dflt := f.dflt }
+
 def schemaOf (c : Case5) : Schema :=
-  c.ents.map fun e => e.map fun f => { kind := f.kind, nullable := f.nullable, dflt := f.dflt }
+  c.ents.map fun e => e.map (currentField c)
 
 def getNode (c : Case5) (n : Nat) : Option Node := Discret.Query.lookup n c.nodes
 
@@ -432,10 +440,21 @@ def cursorOf (q : Query) (last : J) : Option (List Val) :=
     | some (.bool b) => some (.bool b)
     | _ => none
 
+/-- `EntityQuery::finalize`: a cursor value must have the type of its order field -/
+def cursorTyped (c : Case5) (q : Query) (cur : List Val) : Bool :=
+  (q.orders.zip cur).all fun (o, v) =>
+    match fieldDef (schemaOf c) q.ent o.fld, v with
+    | some fd, .int _ => fd.kind = .int
+    | some fd, .str _ => fd.kind = .str
+    | some fd, .bool _ => fd.kind = .bool
+    | _, _ => false
+
 def pagesLoop (c : Case5) (n : Nat) : Nat → List Val → List String → String × String
   | 0, _, acc => (joinWith "/" acc, "")
   | fuel + 1, cur, acc =>
-    match runQuery c (some (n, cur)) with
+    match (match buildQuery c FUEL 0 with
+           | some q0 => if cursorTyped c q0 cur then runQuery c (some (n, cur)) else .error "err:pagingtype"
+           | none => .error "bad-op") with
     | .error e => (joinWith "/" acc, e)
     | .ok (q, items) =>
       if items.isEmpty then (joinWith "/" acc, "")
@@ -465,7 +484,8 @@ def step (c : Case5) (kind : String) (toks : List String) : Case5 × String :=
       | none => (c, "bad-op")
       | some fs =>
         let dv := (kv? toks "dv").bind parseVal
-        let dvBad := (kv? toks "dv").isSome && dv.isNone
+        let th := (kv? toks "then").bind parseVal
+        let dvBad := ((kv? toks "dv").isSome && dv.isNone) || ((kv? toks "then").isSome && (th.isNone || md ≠ "n" || !(["I", "S", "B"].contains ty)))
         let kind : Option FKind := match ty with
           | "I" => some .int | "S" => some .str | "B" => some .bool
           | "R" => (nat? toks "to").map FKind.ref
@@ -475,7 +495,7 @@ def step (c : Case5) (kind : String) (toks : List String) : Case5 × String :=
         | some kd =>
           if k ≠ fs.length ∨ dvBad ∨ !(["r", "n", "d"].contains md) ∨ ((md = "d") ≠ dv.isSome) then (c, "bad-op")
           else
-            let f : FieldS := { kind := kd, nullable := md = "n", dflt := dv, late := (kv? toks "late") = some "1" }
+            let f : FieldS := { kind := kd, nullable := md = "n", dflt := dv, late := (kv? toks "late") = some "1", thenDflt := th }
             ({ c with ents := c.ents.set e (fs ++ [f]) }, "ok")
         | none => (c, "bad-op")
     | _, _, _, _ => (c, "bad-op")
@@ -495,7 +515,7 @@ def step (c : Case5) (kind : String) (toks : List String) : Case5 × String :=
           if refs.any (fun (_, ids) => ids.any fun t => !(c.rows.any (·.id = t))) then (c, "bad-op") else
           -- `fill_not_nullable`: a field with a default that is part of the current model version is stored
           let filled := (fs.zipIdx.filterMap fun (f, j) =>
-            match f.dflt with
+            match (currentField c f).dflt with
             | some dv => if (!f.late || c.upgraded) && !(vals.any (·.1 = j)) then some (j, dv) else none
             | none => none)
           let refs := refs.filter fun (j, ids) => !ids.isEmpty &&
